@@ -40,7 +40,7 @@ def geometry_view(s):
 
 
 def explore(tier, seed, n):
-    cases = [part_cases.gen_partition_case(seed + 101, i, wellformed=True) for i in range(n)]
+    cases = part_cases.extreme_cases(seed + 101) + [part_cases.gen_partition_case(seed + 101, i, wellformed=True) for i in range(n)]
     mism, n_ops = fw.compare(cases, view=geometry_view)
     return {"cases": cases, "mism": mism, "n_ops": n_ops}
 
